@@ -3,7 +3,7 @@
    memory_pool_collection; implementation logs (results, ranges handed to the lists via the guarded insert
    hook, upstream calls, capacity figures after every operation) are replayed against acc_op. *)
 From Coq Require Import ZArith List Bool.
-From FM Require Import FixedStack SmallCarve PoolSpec SlotProofs ListLib PoolSpecProofs.
+From FM Require Import FixedStack SmallCarve PoolSpec SlotProofs ListLib PoolSpecProofs OrderedList OrderedListProofs.
 Import ListNotations.
 Local Open Scope Z_scope.
 
@@ -55,6 +55,22 @@ Theorem C04_single_node_refusal_means_empty : forall s ns bytes evs s',
   exists l0, find_list ns (a_lists s) = Some l0 /\ l_nfree l0 <= 0.
 Proof. exact single_node_refusal_means_empty. Qed.
 Print Assumptions C04_single_node_refusal_means_empty.
+
+(* the address-ordered list itself (Exec model of ordered_free_memory_list): releasing an array puts every node the array
+   occupied (ceil(bytes / node size) of them) back on the list, sorted, whatever the cursor and the sentinel addresses *)
+Theorem C04_ordered_array_release_returns_every_node : forall asserts dbl l m bytes, OInv l -> nsz l < bytes ->
+  (forall x, In x (nodes l) -> x < m \/ m + Z.of_nat (nodes_for l bytes) * nsz l <= x) ->
+  exists l', o_dealloc_array asserts dbl l m bytes = Ret l' /\ OInv l' /\
+             (forall x, In x (nodes l') <-> In x (block_nodes (nodes_for l bytes) m (nsz l)) \/ In x (nodes l)) /\
+             n_of l' = (n_of l + nodes_for l bytes)%nat.
+Proof. exact dealloc_array_valid. Qed.
+Print Assumptions C04_ordered_array_release_returns_every_node.
+
+(* ... and an array allocation takes exactly that many nodes, all of which were on the list *)
+Theorem C04_ordered_array_allocation_takes_listed_nodes : forall l bytes x l', OInv l -> nsz l < bytes -> o_alloc_array l bytes = Some (x, l') ->
+  sorted (nodes l') /\ In x (nodes l) /\ n_of l' = (n_of l - nodes_for l bytes)%nat /\ (forall y, In y (nodes l') -> In y (nodes l)).
+Proof. exact alloc_array_inv. Qed.
+Print Assumptions C04_ordered_array_allocation_takes_listed_nodes.
 
 (* non-vacuity: an accepted history on a 16-byte list: insert 10 nodes, take a 3x8-byte array (2 nodes) and a node, give both back *)
 Example C04_nonvacuous :
